@@ -80,7 +80,8 @@ def _split_label(line):
 
 
 class Unit:
-    def __init__(self, template_path, repo='/repo'):
+    def __init__(self, template_path, repo='/repo', strip_hints=()):
+        self.strip_hints = set(strip_hints)   # functions whose proof hints are dropped (fallback after a shape change)
         self.path = template_path
         self.repo = repo
         self.name = None
@@ -347,8 +348,9 @@ class Unit:
                     spec['loops'][ent['n']] = ent
                     cur = ent['lines']
                 elif kw == 'closure':
-                    mm = re.match(r'(\d+)\s+(.*)$', rest, re.S)
-                    spec['closures'][int(mm.group(1))] = mm.group(2)
+                    mm = re.match(r'([\w#]+)\s+(.*)$', rest, re.S)
+                    key = mm.group(1)
+                    spec['closures'][int(key) if key.isdigit() else key] = mm.group(2)
                     cur = None
                 elif kw in ('before', 'after'):
                     mm = re.match(r'"((?:[^"\\]|\\.)*)"\s*(\d+)?', rest)
@@ -379,6 +381,11 @@ class Unit:
 
     def _emit_fn(self, path, alias, flags, kv, block):
         spec = self._parse_fn_block(block)
+        if path in self.strip_hints:
+            spec['loops'] = {}
+            spec['closures'] = {}
+            spec['hints'] = []
+            spec['chains'] = []
         src = self.source(alias)
         loc = src.find_fn(path)
         raw = src.text[loc['start']:loc['end']]
@@ -561,10 +568,19 @@ class Unit:
         # closures
         cls = sn.closures(0, len(body))
         for n_, ann in spec['closures'].items():
-            if n_ < 1 or n_ > len(cls):
-                self.lost_anchors.append('%s: closure %d not found (%d closures)' % (path, n_, len(cls)))
-                continue
-            c = cls[n_ - 1]
+            if isinstance(n_, str):
+                callee, _, k_ = n_.partition('#')
+                cands = [c for c in cls if c.get('callee') == callee]
+                k_ = int(k_ or 1)
+                if k_ < 1 or k_ > len(cands):
+                    self.lost_anchors.append('%s: closure %s not found (%d closures passed to %s)' % (path, n_, len(cands), callee))
+                    continue
+                c = cands[k_ - 1]
+            else:
+                if n_ < 1 or n_ > len(cls):
+                    self.lost_anchors.append('%s: closure %d not found (%d closures)' % (path, n_, len(cls)))
+                    continue
+                c = cls[n_ - 1]
             cbody = body[c['body_start']:c['body_end']]
             inner = cbody[1:-1].strip() if c['is_block'] else cbody.strip()
             mm = re.match(r'\((.*?)\)\s*->\s*(\([^)]*\))\s*(?:ensures\s+(.*))?$', ann, re.S)
